@@ -581,8 +581,9 @@ func TestReplay9(t *testing.T) {
 // handledWhileFailed: a failed actor is suspended until its supervisor has decided. For every consultation the failure
 // it is about is the child's last failing delivery after the previous consultation about the same child (none: an
 // escalated consultation, the child did not fail itself); between that delivery and the consultation the child must
-// not handle a user message - unless another consultation lies in between (a sibling's failure under one-for-all or
-// an ancestor's restart may legitimately have resumed or drained it) or the child was restarted in between by a directive
+// not handle a user message - unless another consultation lies between the child's previous consultation and this one
+// (a sibling's failure under one-for-all or an ancestor's restart may legitimately have resumed or drained it, also
+// with a directive that was decided before the child failed and arrived after) or the child was restarted in between by a directive
 // that was already on its way when it failed. Returns a description, "" if the clause holds.
 func handledWhileFailed(tr []world.Ev, consults []world.Consult) string {
 	prevConsult := map[string]int{}
@@ -601,7 +602,10 @@ func handledWhileFailed(tr []world.Ev, consults []world.Consult) string {
 		}
 		other := false
 		for _, o := range consults {
-			if o.TraceIdx > f && o.TraceIdx <= cs.TraceIdx && !(o.Child == cs.Child && o.TraceIdx == cs.TraceIdx) {
+			// any other consultation since the child's previous one: its directive (a one-for-all Resume or Restart
+			// about a sibling, an ancestor's decision) may still have been on its way when the child failed, and then
+			// legitimately resumes or restarts it before its own failure is looked at
+			if o.TraceIdx > from && o.TraceIdx <= cs.TraceIdx && !(o.Child == cs.Child && o.TraceIdx == cs.TraceIdx) {
 				other = true
 			}
 		}
